@@ -73,8 +73,11 @@ def plan_C01(tier, seed, q):
 def plan_C05(tier, seed, q):
     return {"level": "exploration", "rule": E2E_RULE + "; profile 'order': server pipelining on, one issuer per connection using Go on a shared Done "
             "channel; oracles: handler entry order == issue order per connection, no overlap, wire response order == request order, "
-            "arrival order on Done == issue order when the client pipelines too",
-            "jobs": e2e_jobs("C05", tier, seed, "order", 300, 4000, race_t=400) + real_jobs("C05", tier, seed, "order", 48, 400, race_t=96, poll=1),
+            "arrival order on Done == issue order when the client pipelines too; plus the cut engine on the four server-pipelining mode combinations ("
+            + CUT_RULE + "): while a connection goes down at any byte offset or step, the requests already received are still executed one at a "
+            "time and in the order sent",
+            "jobs": e2e_jobs("C05", tier, seed, "order", 300, 4000, race_t=400) + real_jobs("C05", tier, seed, "order", 48, 400, race_t=96, poll=1)
+            + (cut_jobs("C05", tier, seed, [1], [5, 6, 8], 5, 8) if q else cut_jobs("C05", tier, seed, [1, 5, 6, 8], [], 1, 16, timeout=3000)),
             "min_evaluations": 100, "min_distinct": 50, "assumptions": V_ASSUME}
 
 
@@ -256,8 +259,8 @@ def plan_C13(tier, seed, q):
 
 
 def plan_C14(tier, seed, q):
-    n = 3000 if q else 40000
-    jobs = pool_jobs("C14", tier, seed, [("restart", n), ("limits", n // 3)], shards=8)
+    n = 3000 if q else 100000
+    jobs = pool_jobs("C14", tier, seed, [("restart", n), ("limits", n // 3)], shards=8 if q else 16)
     if not q:
         jobs += pool_jobs("C14", tier, seed + 1, [("restart", 800)], shards=8, kind="vt-race", timeout=3000)
     return {"level": "fault_enumeration", "rule": POOL_RULE + "; class 'restart': one sequential caller with call spacing from {10 ms .. 6 s} around "
@@ -268,8 +271,8 @@ def plan_C14(tier, seed, q):
 
 
 def plan_C15(tier, seed, q):
-    n = 3000 if q else 40000
-    jobs = pool_jobs("C15", tier, seed, [("busy", n), ("limits", n // 3)], shards=8)
+    n = 3000 if q else 100000
+    jobs = pool_jobs("C15", tier, seed, [("busy", n), ("limits", n // 3)], shards=8 if q else 16)
     if not q:
         jobs += pool_jobs("C15", tier, seed + 1, [("busy", 800)], shards=8, kind="vt-race", timeout=3000)
     return {"level": "exploration", "rule": POOL_RULE + "; oracles: a call (or stream) to a never-killed server whose request had been written to a "
@@ -288,8 +291,8 @@ POLICY_ASSUME = ["the fake RoundTripper (scripted health and latency per address
 
 
 def plan_C16(tier, seed, q):
-    n = 8000 if q else 120000
-    jobs = policy_jobs("C16", tier, seed, "route", n, shards=8)
+    n = 8000 if q else 600000
+    jobs = policy_jobs("C16", tier, seed, "route", n, shards=8 if q else 16)
     if not q:
         jobs += policy_jobs("C16", tier, seed + 1, "route", 3000, shards=8, kind="vt-race", timeout=3000)
     return {"level": "exploration",
@@ -303,8 +306,8 @@ def plan_C16(tier, seed, q):
 
 
 def plan_C17(tier, seed, q):
-    n = 6000 if q else 100000
-    jobs = policy_jobs("C17", tier, seed, "policy", n, shards=8)
+    n = 6000 if q else 250000
+    jobs = policy_jobs("C17", tier, seed, "policy", n, shards=8 if q else 16)
     return {"level": "exploration",
             "rule": "sequence = single caller, 2-8 live targets, policy in {RoundRobin, Random, LeastTime}, Alpha in {0.1,0.5,0.8,0.99}, Tick in {10ms,100ms,1s}, "
                     "latency profile in {constant, swapped mid-run, drifting}, call spacing co-prime with Tick, 120-220 calls, optionally one target "
@@ -315,8 +318,8 @@ def plan_C17(tier, seed, q):
 
 
 def plan_C18(tier, seed, q):
-    n = 8000 if q else 120000
-    jobs = policy_jobs("C18", tier, seed, "failover", n, shards=8)
+    n = 8000 if q else 600000
+    jobs = policy_jobs("C18", tier, seed, "failover", n, shards=8 if q else 16)
     if not q:
         jobs += policy_jobs("C18", tier, seed + 1, "failover", 3000, shards=8, kind="vt-race", timeout=3000)
     return {"level": "fault_enumeration",
@@ -331,8 +334,8 @@ def plan_C18(tier, seed, q):
 
 
 def plan_C20(tier, seed, q):
-    n = 4000 if q else 60000
-    jobs = shard("vt", "lifecycle", "C20", tier, seed, n, 8, timeout=1500)
+    n = 4000 if q else 150000
+    jobs = shard("vt", "lifecycle", "C20", tier, seed, n, 8 if q else 16, timeout=1500 if q else 3000)
     if not q:
         jobs += shard("vt-race", "lifecycle", "C20", tier, seed + 1, 1500, 8, timeout=3000)
     return {"level": "exploration",
